@@ -663,6 +663,56 @@ def main(ctx):
         runits = runits[::3]
     ctx.lattice("pmap-real-pool", runits, one_real, nworkers=4, bounds=dict(note="latency decreasing in the index"))
 
+    # ------------------------------------------------------------ environment: the multiprocessing start method
+    # how worker processes come into being is a process-level setting of the APPLICATION (multiprocessing.set_start_method:
+    # fork, spawn, forkserver - the default differs between platforms and Python versions), no argument of pmap.  For a
+    # picklable module-level fn the result must be list(map(fn, items)) under each of them, for every worker count and
+    # chunk size.  Each case runs in a throw-away forked child that selects the start method first (real pools).
+    import multiprocessing as _mp
+    from mc.util import in_child
+
+    def one_start_method(case, rec):
+        method, n, nproc, chunksize, task = case
+        fn = task_lookup if task == "lookup" else TASKS[task]
+        items = list(range(n))
+        try:
+            exp = ("ok", list(map(fn, items)))
+        except Exception as e:
+            exp = ("exc", type(e).__name__)
+
+        def run():
+            import sys
+            main = sys.modules.get("__main__")
+            # the workers of spawn / forkserver re-import the application's main module: here they must not re-run the
+            # harness; they find mc.checks.c20 and esutil through sys.path, which is handed to them
+            for a in ("__file__", "__spec__"):
+                try:
+                    setattr(main, a, None) if a == "__spec__" else delattr(main, a)
+                except Exception:
+                    pass
+            _mp.set_start_method(method, force=True)
+            try:
+                r = P.pmap(fn, items, chunksize=chunksize, nproc=nproc, file=io.StringIO())
+            except Exception as e:
+                return ("exc", type(e).__name__, str(e)[:160])
+            return ("ok", r)
+
+        st, res = in_child(run, timeout=120)
+        if st != "ok":
+            return rec.fail(case, "start method %r: the child running pmap died: %s" % (method, str(res)[:300]))
+        if tuple(res[:2]) != exp:
+            return rec.fail(case, "start method %r: pmap(nproc=%d, chunksize=%d) gave %r, list(map(fn, items)) is %r"
+                            % (method, nproc, chunksize, res, exp))
+        rec.ok(case, outcome="start-method:%s" % method, nontrivial=(method != _mp.get_start_method(allow_none=False)), calls=1)
+
+    SM = [m for m in ("fork", "spawn", "forkserver") if m in _mp.get_all_start_methods()]
+    smunits = [(m, n, nproc, cs, task) for m in SM for n in ctx.pick((5,), (0, 1, 5))
+               for nproc in ctx.pick((1, 2), (1, 2, 3, 8)) for cs in sorted(set(ctx.pick((1, 2, n + 1), (1, 2, 3, n + 1))))
+               for task in ctx.pick(("square", "lookup"), ("square", "lookup", "raise_on_2"))]
+    ctx.lattice("pmap-start-methods", smunits, one_start_method, engine="environment",
+                bounds=dict(start_methods=SM, pool="real ProcessPoolExecutor in a child process that called set_start_method",
+                            tasks="module-level functions (picklable by reference)"))
+
     # ------------------------------------------------------------ call sequences
     # sequences of sort / chunking calls in one process on the same list and array objects
     # (mc/worlds.py call_sequences): recursion scratch kept at module level, memoised chunk boundaries
